@@ -1175,7 +1175,10 @@ type fetchLiteralReader struct {
 
 func (lit *fetchLiteralReader) Read(b []byte) (int, error) {
 	n, err := lit.LiteralReader.Read(b)
-	if err == io.EOF && lit.ch != nil {
+	// Unblock the decoder on any error, not only on io.EOF: if the connection
+	// fails in the middle of the literal, the decoder must be able to report
+	// the error and close the item channel
+	if err != nil && lit.ch != nil {
 		close(lit.ch)
 		lit.ch = nil
 	}
